@@ -116,6 +116,22 @@ func (c *Encoder) encodeStruct(v reflect.Value) {
 
 	vtyp := v.Type()
 
+	// a few optional fields can share one flag bit: this group is present if at least one of its fields
+	// is not zero, and then ALL fields of the group must be written (decoder reads all of them)
+	for i := 0; i < v.NumField(); i++ {
+		info, err := parseTag(vtyp.Field(i).Tag)
+		if err != nil {
+			c.err = errors.Wrapf(err, "parsing tag of field %v", vtyp.Field(i).Name)
+			return
+		}
+		if info == nil || info.ignore {
+			continue
+		}
+		if !v.Field(i).IsZero() {
+			flag |= 1 << info.index
+		}
+	}
+
 	for i := 0; i < v.NumField(); i++ {
 		// THIS PART is appending to object meta value, that actually don't writing in real encodeValue
 		if hasFlagsField && flagIndex == i {
@@ -143,17 +159,9 @@ func (c *Encoder) encodeStruct(v reflect.Value) {
 			return
 		}
 
-		fieldVal := v.Field(i)
-		if !fieldVal.IsZero() {
-			// тег есть, это 100% опциональное поле
-			flag |= 1 << info.index
-			if info.encodedInBitflag {
-				continue
-			}
-
+		// тег есть, это 100% опциональное поле: пишем, если его группа (бит) выставлена
+		if flag&(1<<info.index) != 0 && !info.encodedInBitflag {
 			tmpObjects = append(tmpObjects, v.Field(i))
-
-			continue
 		}
 	}
 
